@@ -42,11 +42,21 @@ impl Middleware for TraceMw {
     }
 }
 
-struct CountMw(Arc<AtomicU64>);
+type Seen = Arc<Mutex<Vec<(Option<String>, Option<u64>)>>>;
+/// Forwarding middleware that counts its runs and records the context `Next` shows it.
+struct CountMw(Arc<AtomicU64>, Seen);
 impl Middleware for CountMw {
     fn handle(&self, req: &Message, next: Next<'_>) -> Result<Message, RepeError> {
         self.0.fetch_add(1, Ordering::SeqCst);
+        self.1.lock().unwrap().push((next.ctx().map(|c| c.method().to_string()), next.peer().map(|p| p.peer_id().0)));
         next.run(req)
+    }
+}
+
+struct NullSink;
+impl repe::PeerSink for NullSink {
+    fn send_notify(&self, _method: &str, _body: repe::NotifyBody) -> Result<(), repe::PeerSendError> {
+        Ok(())
     }
 }
 
@@ -532,11 +542,11 @@ fn code_of(n: u32) -> ErrorCode {
 
 const TWIN_PATH: &str = "/t/x";
 
-fn twin_router(kind: &str, blocking: bool, ok: bool, code: ErrorCode, nmw: usize, order: u8, counts: &[Arc<AtomicU64>]) -> Option<Router> {
+fn twin_router(kind: &str, blocking: bool, ok: bool, code: ErrorCode, nmw: usize, order: u8, counts: &[Arc<AtomicU64>], seen: &Seen) -> Option<Router> {
     let mut r = Router::new();
     let add_mws = |mut r: Router| {
         for c in counts.iter().take(nmw) {
-            r = r.with_middleware(CountMw(c.clone()));
+            r = r.with_middleware(CountMw(c.clone(), seen.clone()));
         }
         r
     };
@@ -547,8 +557,8 @@ fn twin_router(kind: &str, blocking: bool, ok: bool, code: ErrorCode, nmw: usize
     r = match (kind, blocking) {
         ("json", false) => r.with_json(TWIN_PATH, move |v| if ok { Ok(json!({"echo": v})) } else { Err(fail()) }),
         ("json", true) => r.with_json_blocking(TWIN_PATH, move |v| if ok { Ok(json!({"echo": v})) } else { Err(fail()) }),
-        ("jsonctx", false) => r.with_json_ctx(TWIN_PATH, move |c: &CallContext, v| if ok { Ok(json!({"m": c.method(), "echo": v})) } else { Err(fail()) }),
-        ("jsonctx", true) => r.with_json_ctx_blocking(TWIN_PATH, move |c: &CallContext, v| if ok { Ok(json!({"m": c.method(), "echo": v})) } else { Err(fail()) }),
+        ("jsonctx", false) => r.with_json_ctx(TWIN_PATH, move |c: &CallContext, v| if ok { Ok(json!({"m": c.method(), "peer": c.peer().map(|p| p.peer_id().0), "echo": v})) } else { Err(fail()) }),
+        ("jsonctx", true) => r.with_json_ctx_blocking(TWIN_PATH, move |c: &CallContext, v| if ok { Ok(json!({"m": c.method(), "peer": c.peer().map(|p| p.peer_id().0), "echo": v})) } else { Err(fail()) }),
         ("typed", false) => r.with_typed::<P, P, _>(TWIN_PATH, move |p: P| -> Result<TypedResponse<P>, (ErrorCode, String)> {
             if ok { Ok(TypedResponse::beve(P { a: p.a.wrapping_add(1), s: p.s })) } else { Err(fail()) }
         }),
@@ -556,10 +566,10 @@ fn twin_router(kind: &str, blocking: bool, ok: bool, code: ErrorCode, nmw: usize
             if ok { Ok(TypedResponse::beve(P { a: p.a.wrapping_add(1), s: p.s })) } else { Err(fail()) }
         }),
         ("typedctx", false) => r.with_typed_ctx::<P, P, _>(TWIN_PATH, move |c: &CallContext, p: P| -> Result<P, (ErrorCode, String)> {
-            if ok { Ok(P { a: p.a.wrapping_add(1), s: format!("{}{}", c.method(), p.s) }) } else { Err(fail()) }
+            if ok { Ok(P { a: p.a.wrapping_add(1), s: format!("{}{:?}{}", c.method(), c.peer().map(|p| p.peer_id().0), p.s) }) } else { Err(fail()) }
         }),
         ("typedctx", true) => r.with_typed_ctx_blocking::<P, P, _>(TWIN_PATH, move |c: &CallContext, p: P| -> Result<P, (ErrorCode, String)> {
-            if ok { Ok(P { a: p.a.wrapping_add(1), s: format!("{}{}", c.method(), p.s) }) } else { Err(fail()) }
+            if ok { Ok(P { a: p.a.wrapping_add(1), s: format!("{}{:?}{}", c.method(), c.peer().map(|p| p.peer_id().0), p.s) }) } else { Err(fail()) }
         }),
         ("adapter", false) => r.with_handler(TWIN_PATH, PAdapter { ok, code }),
         ("slice", false) => r.with_typed_slice::<f64, f64, _>(TWIN_PATH, move |xs: Vec<f64>| if ok { Ok(xs.iter().map(|x| x * 2.0).collect()) } else { Err(fail()) }),
@@ -636,10 +646,11 @@ fn exec_twin(out: &mut Out, line: &str, w: &[&str]) -> (String, bool) {
     let rid: u64 = w[14].parse().unwrap_or(1);
     let ops = vec![line.to_string()];
     let counts: Vec<Arc<AtomicU64>> = (0..nmw).map(|_| Arc::new(AtomicU64::new(0))).collect();
+    let seen: Seen = Arc::new(Mutex::new(vec![]));
     let (Some(plain), Some(raw), Some(wrapped)) = (
-        twin_router(kind, false, ok, code, 0, 0, &counts),
-        twin_router(kind, blocking, ok, code, 0, 0, &counts),
-        twin_router(kind, blocking, ok, code, nmw, order, &counts),
+        twin_router(kind, false, ok, code, 0, 0, &counts, &seen),
+        twin_router(kind, blocking, ok, code, 0, 0, &counts, &seen),
+        twin_router(kind, blocking, ok, code, nmw, order, &counts, &seen),
     ) else {
         return bad();
     };
@@ -669,6 +680,14 @@ fn exec_twin(out: &mut Out, line: &str, w: &[&str]) -> (String, bool) {
                 "handle_with_ctx" => h.handle_with_ctx(&req, &ctx),
                 _ => h.handle_view(&view, &ctx),
             });
+            if *hn == "wrapped" {
+                // every link of the chain must have been shown the caller's context (none for `handle`)
+                let want = if route == "handle" { None } else { Some(method.to_string()) };
+                let got = std::mem::take(&mut *seen.lock().unwrap());
+                if got.len() != nmw || got.iter().any(|(m, p)| *m != want || p.is_some()) {
+                    out.oracle_fail("router.twin.ctx_link", &format!("{} behind {} middleware: links saw {:?}, expected {} x {:?}", route, nmw, got, nmw, want), &ops);
+                }
+            }
             if first.is_none() {
                 first = Some(match &r {
                     Err(_) => "PANIC".into(),
@@ -693,11 +712,23 @@ fn exec_twin(out: &mut Out, line: &str, w: &[&str]) -> (String, bool) {
     // the context is an input too: with a context whose method differs from the query, every
     // context-taking route of every wrapper must still agree (a wrapper that drops the context and
     // lets the leaf re-derive one from the query would answer differently for the ctx kinds)
-    let ctx2 = CallContext::detached("/ctx/marker");
+    let peer = repe::PeerHandle::new(repe::PeerId(77), Arc::new(NullSink));
+    let ctx2 = CallContext::new("/ctx/marker", &peer);
+    let mut links_with_ctx = 0usize;
     let mut first2: Option<(String, String)> = None;
     for (hn, h) in handlers.iter() {
         for route in ["handle_with_ctx", "handle_view"] {
             let r = catch(|| if route == "handle_view" { h.handle_view(&view, &ctx2) } else { h.handle_with_ctx(&req, &ctx2) });
+            if *hn == "wrapped" {
+                let saw = std::mem::take(&mut *seen.lock().unwrap());
+                let good = saw.iter().filter(|(m, p)| m.as_deref() == Some("/ctx/marker") && *p == Some(77)).count();
+                if route == "handle_with_ctx" {
+                    links_with_ctx = good;
+                }
+                if saw.len() != nmw || good != nmw {
+                    out.oracle_fail("router.twin.ctx_link", &format!("{} behind {} middleware with a peer context: links saw {:?}", route, nmw, saw), &ops);
+                }
+            }
             let got = norm(rid, &query, r);
             match &first2 {
                 None => first2 = Some((format!("{}.{}", hn, route), got)),
@@ -734,20 +765,195 @@ fn exec_twin(out: &mut Out, line: &str, w: &[&str]) -> (String, bool) {
             }
         }
     }
+    // `with_handler` (JsonTypedAdapter) must gate body formats like `with_typed` does for the same input type
+    if kind == "adapter" {
+        if let Some(tr) = twin_router("typed", false, ok, code, 0, 0, &counts, &seen) {
+            if let Some(th) = tr.get(TWIN_PATH) {
+                let is_gate_rej = |r: &Result<Result<Message, RepeError>, String>| matches!(r, Ok(Ok(m)) if m.header.ec == 4 && m.body.starts_with(b"Expected"));
+                let a = catch(|| hp.handle(&req));
+                let t = catch(|| th.handle(&req));
+                if is_gate_rej(&a) != is_gate_rej(&t) {
+                    out.oracle_fail("router.twin.adapter.gate_differs_from_typed", &format!("body format {}: with_handler {} the body format, with_typed {}", bfmt, if is_gate_rej(&a) { "rejects" } else { "accepts" }, if is_gate_rej(&t) { "rejects" } else { "accepts" }), &ops);
+                }
+            }
+        }
+    }
     let exec = exec_name(hw.execution());
     if blocking && exec != "offreader" {
         out.oracle_fail("router.twin.execution_lost", &format!("blocking handler behind {} middleware reports {}", nmw, exec), &ops);
     }
     let class = first.unwrap();
     out.count(&format!("twin.{}.{}", kind, class.split(' ').next().unwrap()));
-    let printed = if kind == "registry" || kind == "struct" { "-".to_string() } else { class.clone() };
-    (format!("{} {} exec {}", idx, printed, exec), class != "rej 4" || bfmt <= 3)
+    let printed = if kind == "registry" { "-".to_string() } else { class.clone() };
+    (format!("{} {} exec {} links {}", idx, printed, exec, links_with_ctx), class != "rej 4" || bfmt <= 3)
+}
+
+// ------------------------------------------------------------------------------------------
+// (v) a derived struct behind the router: RegisteredStruct::handle + #[derive(RepeStruct)]
+// ------------------------------------------------------------------------------------------
+#[derive(Default, Serialize, Deserialize, repe::RepeStruct)]
+struct Deep {
+    z: Value,
+}
+#[derive(Default, Serialize, Deserialize, repe::RepeStruct)]
+struct Inner {
+    x: Value,
+    #[repe(nested)]
+    deep: Deep,
+}
+#[derive(Default, Serialize, Deserialize, repe::RepeStruct)]
+#[repe(methods(echo(&self, v: Value) -> Value, ping(&self) -> i64, touch(&mut self)))]
+struct Demo {
+    a: Value,
+    #[repe(readonly)]
+    ro: Value,
+    #[repe(nested)]
+    inner: Inner,
+}
+impl Demo {
+    fn echo(&self, v: Value) -> Value {
+        v
+    }
+    fn ping(&self) -> i64 {
+        7
+    }
+    fn touch(&mut self) {}
+}
+
+/// The lock kinds `register_struct_shared` / `with_struct_shared` accept (`Lockable`).
+enum DLock {
+    Std(Arc<Mutex<Demo>>),
+    Rw(Arc<std::sync::RwLock<Demo>>),
+    TokioM(Arc<tokio::sync::Mutex<Demo>>),
+    TokioRw(Arc<tokio::sync::RwLock<Demo>>),
+}
+impl DLock {
+    fn new(kind: u64) -> DLock {
+        match kind % 4 {
+            0 => DLock::Std(Arc::new(Mutex::new(Demo::default()))),
+            1 => DLock::Rw(Arc::new(std::sync::RwLock::new(Demo::default()))),
+            2 => DLock::TokioM(Arc::new(tokio::sync::Mutex::new(Demo::default()))),
+            _ => DLock::TokioRw(Arc::new(tokio::sync::RwLock::new(Demo::default()))),
+        }
+    }
+    fn mount(&self, router: Router, root: &str, builder_style: bool) -> Router {
+        macro_rules! go {
+            ($l:expr, $L:ty) => {{
+                if builder_style {
+                    router.with_struct_shared::<Demo, $L>(root, $l.clone())
+                } else {
+                    let mut r = router;
+                    r.register_struct_shared::<Demo, $L>(root, $l.clone());
+                    r
+                }
+            }};
+        }
+        match self {
+            DLock::Std(l) => go!(l, Mutex<Demo>),
+            DLock::Rw(l) => go!(l, std::sync::RwLock<Demo>),
+            DLock::TokioM(l) => go!(l, tokio::sync::Mutex<Demo>),
+            DLock::TokioRw(l) => go!(l, tokio::sync::RwLock<Demo>),
+        }
+    }
+}
+
+struct DState {
+    demo: DLock,
+    written: BTreeMap<String, Vec<u8>>, // relative path -> canonical JSON last accepted by a write
+    ops: Vec<String>,
+}
+impl DState {
+    fn new() -> DState {
+        DState::with_lock(0)
+    }
+    fn with_lock(kind: u64) -> DState {
+        DState { demo: DLock::new(kind), written: BTreeMap::new(), ops: vec![] }
+    }
+}
+
+fn exec_dstruct(out: &mut Out, ds: &mut DState, line: &str, w: &[&str]) -> (String, bool) {
+    let idx = w[1];
+    let bad = || (format!("{} bad-op", idx), false);
+    if w.len() != 9 {
+        return bad();
+    }
+    let (Some(root), Some(path), Ok(bfmt), Some(body)) = (unshex(w[2]), unshex(w[3]), w[4].parse::<u16>(), unhex(w[5])) else { return bad() };
+    ds.ops.push(line.to_string());
+    let ops = ds.ops.clone();
+    // builder (`with_struct_shared`) or in-place (`register_struct_shared`) registrar, by op parity
+    let router = ds.demo.mount(Router::new(), &root, idx.len() % 2 == 0);
+    let Some(h) = router.get(&path) else {
+        out.count("dstruct.none");
+        return (format!("{} none", idx), false);
+    };
+    let req = request(5, &path, &body, bfmt);
+    let view = MessageView { header: req.header, query: &req.query, body: &req.body };
+    let ctx = CallContext::detached(&path);
+    let r = catch(|| h.handle_view(&view, &ctx));
+    let obs = match r {
+        Err(_) => {
+            out.oracle_fail("router.derive.panic", &format!("derived struct at {:?} panicked on {:?}", root, path), &ops);
+            "PANIC".to_string()
+        }
+        Ok(Err(_)) => "fail".to_string(),
+        Ok(Ok(m)) if m.header.ec != 0 => format!("err {}", m.header.ec),
+        Ok(Ok(m)) => {
+            let is_obj = serde_json::from_slice::<Value>(&m.body).map(|v| v.is_object()).unwrap_or(false);
+            if body.is_empty() && is_obj { "whole".to_string() } else { format!("ok {}", hex(&m.body)) }
+        }
+    };
+    out.count(&format!("dstruct.{}", obs.split(' ').next().unwrap()));
+    // ---- direct oracle: hand-written expectation per endpoint of `Demo` (not the model): what kind of
+    // endpoint the relative path names decides the class of the answer
+    {
+        let nroot = if root.is_empty() || root == "/" { String::new() } else if root.starts_with('/') { root.clone() } else { format!("/{}", root) };
+        let rel = &path[nroot.len().min(path.len())..];
+        let decodable = body.is_empty() || ((bfmt == 2 || bfmt == 3) && serde_json::from_slice::<Value>(&body).is_ok());
+        if decodable {
+            let has_body = !body.is_empty();
+            let want: Option<&str> = match rel {
+                "" | "/inner" | "/inner/deep" => Some(if has_body { "err 4" } else { "whole" }), // whole write of a non-object: serde rejects
+                "/a" | "/inner/x" | "/inner/deep/z" => Some("ok"),
+                "/ro" => Some(if has_body { "err 4" } else { "ok" }),
+                "/echo" => Some(if has_body { "ok" } else { "err 4" }),
+                "/ping" | "/touch" => Some("ok"),
+                "/" | "/nope" | "/inner/nope" | "/inner//x" | "/a~0" | "/inner~1x" => Some("err 6"),
+                "/a/" | "/a/b" | "/inner/deep/z/q" | "/ping/x" => Some("err 6"),
+                r if r.starts_with("/inner/deep/z/1/") => Some("err 6"),
+                _ => None,
+            };
+            if let Some(w) = want {
+                let got = if obs.starts_with("ok ") { "ok" } else { obs.as_str() };
+                if got != w {
+                    out.oracle_fail("router.derive.semantics", &format!("derived struct at {:?}, path {:?} ({}): answered {:?}, the endpoint kind says {:?}", root, path, if has_body { "with body" } else { "no body" }, obs, w), &ops);
+                }
+            }
+        }
+    }
+    // ---- direct oracle: read-after-write, keyed by the relative path text (independent of the model)
+    let norm_root = if root.is_empty() || root == "/" { String::new() } else if root.starts_with('/') { root.clone() } else { format!("/{}", root) };
+    let rel = path[norm_root.len().min(path.len())..].to_string();
+    let is_method = rel == "/echo" || rel == "/ping" || rel == "/touch";
+    if !is_method {
+        if !body.is_empty() && obs == format!("ok {}", hex(b"null")) {
+            if let Some(c) = unhex(w[6]) {
+                ds.written.insert(rel.clone(), c);
+            }
+        } else if body.is_empty() {
+            if let (Some(want), Some(got)) = (ds.written.get(&rel), obs.strip_prefix("ok ")) {
+                if hex(want) != got {
+                    out.oracle_fail("router.derive.read_after_write", &format!("read of {:?} returned {} after {} was written", path, got, hex(want)), &ops);
+                }
+            }
+        }
+    }
+    (format!("{} {}", idx, obs), obs != "none")
 }
 
 // ------------------------------------------------------------------------------------------
 // execution of op lines
 // ------------------------------------------------------------------------------------------
-fn exec_line(out: &mut Out, sc: &mut Scen, line: &str) {
+fn exec_line(out: &mut Out, sc: &mut Scen, ds: &mut DState, line: &str) {
     let w = words(line);
     if w.len() < 2 {
         return;
@@ -819,6 +1025,16 @@ fn exec_line(out: &mut Out, sc: &mut Scen, line: &str) {
                 }
                 None => (format!("{} bad-op", idx), false),
             };
+            out.case(line, &obs, nt);
+        }
+        "dreset" => {
+            *ds = DState::with_lock(n(2));
+            out.count(&format!("dreset.lock{}", n(2) % 4));
+            ds.ops.push(line.to_string());
+            out.config(line);
+        }
+        "dstruct" => {
+            let (obs, nt) = exec_dstruct(out, ds, line, &w);
             out.case(line, &obs, nt);
         }
         "twin" => {
@@ -995,6 +1211,46 @@ impl Gen {
         }
     }
 
+    // ---- (v) derived struct behind a mount
+    fn derived_scenario(&mut self) {
+        const ROOTS: &[&str] = &["/d", "", "/x/y", "d"];
+        const PATHS: &[&str] = &[
+            "", "/a", "/ro", "/inner", "/inner/x", "/inner/deep", "/inner/deep/z", "/echo", "/ping", "/touch", "/", "/a/", "/a/b", "/nope", "/inner/nope",
+            "/inner/deep/z/q", "/inner//x", "/ping/x", "/a~0", "/inner~1x", "/inner/deep/z/1/2/3/4/5/6/7/8/9/10/11/12/13/14/15/16",
+        ];
+        let lock = self.rng.below(4);
+        self.push("dreset", &lock.to_string());
+        let root = *self.rng.pick(ROOTS);
+        let norm = if root.is_empty() { String::new() } else if root.starts_with('/') { root.to_string() } else { format!("/{}", root) };
+        for _ in 0..self.rng.range(8, 30) {
+            let rel = *self.rng.pick(PATHS);
+            let path = format!("{}{}", norm, rel);
+            let v: Value = match self.rng.below(7) {
+                0 => json!(self.rng.below(1000)),
+                1 => json!("s\"x/~"),
+                2 => json!([1, "two", null, [3.5]]),
+                3 => json!(true),
+                4 => json!(null),
+                5 => json!(-7.25),
+                _ => json!(format!("v{}", self.rng.below(50))),
+            };
+            let (bfmt, body): (u16, Vec<u8>) = match self.rng.below(12) {
+                0..=4 => (2, vec![]),
+                5..=7 => (2, serde_json::to_vec(&v).unwrap()),
+                8 => (3, serde_json::to_vec(&v).unwrap()),
+                9 => (1, beve::to_vec(&v).unwrap()),
+                10 => (*self.rng.pick(&[0u16, 4, 77]), serde_json::to_vec(&v).unwrap()),
+                _ => (2, b"{not json".to_vec()),
+            };
+            let j = serde_json::from_slice::<Value>(&body).ok();
+            let b = catch(|| beve::from_slice::<Value>(&body).ok()).unwrap_or(None);
+            let decoded = match bfmt { 2 | 3 => j.clone(), 1 => b.clone(), _ => None };
+            let canon = decoded.as_ref().map(|d| serde_json::to_vec(d).unwrap()).unwrap_or_default();
+            // whole-(sub)struct writes: these bodies are never objects, so serde rejects them for every struct type
+            self.push("dstruct", &format!("{} {} {} {} {} {}{}00 0", shex(root), shex(&path), bfmt, hex(&body), hex(&canon), j.is_some() as u8, b.is_some() as u8));
+        }
+    }
+
     // ---- (iv) twins
     fn twin(&mut self, kind: &str, bfmt: u16, body: Vec<u8>) {
         let blocking = matches!(kind, "json" | "jsonctx" | "typed" | "typedctx") && self.rng.chance(1, 2);
@@ -1076,7 +1332,7 @@ const BFMTS: &[u16] = &[0, 1, 1, 1, 2, 2, 3, 3, 4, 255, 4096, 65535];
 fn hints_for(kind: &str, body: &[u8]) -> String {
     let b = |x: bool| if x { '1' } else { '0' };
     let (j, bv) = match kind {
-        "json" | "jsonctx" => (
+        "json" | "jsonctx" | "struct" => (
             catch(|| serde_json::from_slice::<Value>(body).is_ok()).unwrap_or(false),
             catch(|| beve::from_slice::<Value>(body).is_ok()).unwrap_or(false),
         ),
@@ -1119,6 +1375,9 @@ fn generate(args: &Args) -> Vec<String> {
     for _ in 0..n_struct {
         g.struct_paths();
     }
+    for _ in 0..(if thorough { 6000 } else { 250 }) {
+        g.derived_scenario();
+    }
     // every kind × every format code, several bodies each
     for _ in 0..n_twin_rounds {
         for kind in KINDS {
@@ -1137,7 +1396,7 @@ fn main() {
     let args = Args::parse();
     quiet_panics();
     let mut out = Out::new(&args.out);
-    out.rule = "(i) random registration orders of routes (all with_* registrars), registry mounts, struct mounts and tracing middleware over small overlapping path pools, a `get` after every registration; non-trivial = some middleware or mount present. (ii) prefix/path pairs built from the prefix (itself, normalised, minus a char, plus tails with and without '/'); (iii) struct mounts with relative paths of 0..40 segments biased to 15/16/17/18/40, empty segments, well-formed ~0/~1 escapes; (iv) every handler kind x body-format codes {0..4,255,4096,65535} x valid/near-valid/arbitrary bodies through handle/handle_with_ctx/handle_view of the plain, blocking and middleware-wrapped handler; non-trivial = reaches the decoder or a known format code".into();
+    out.rule = "(i) random registration orders of routes (all with_* registrars), registry mounts, struct mounts and tracing middleware over small overlapping path pools, a `get` after every registration; non-trivial = some middleware or mount present. (ii) prefix/path pairs built from the prefix (itself, normalised, minus a char, plus tails with and without '/'); (iii) struct mounts with relative paths of 0..40 segments biased to 15/16/17/18/40, empty segments, well-formed ~0/~1 escapes; (v) a #[derive(RepeStruct)] struct (plain / readonly / nested x2 fields, 3 methods) mounted at several roots via register_/with_struct_shared: reads, writes (JSON/UTF-8/BEVE/garbage/bad format), calls, invalid paths and subpaths, deep paths; (iv) every handler kind x body-format codes {0..4,255,4096,65535} x valid/near-valid/arbitrary bodies through handle/handle_with_ctx/handle_view of the plain, blocking and middleware-wrapped handler; non-trivial = reaches the decoder or a known format code".into();
     let lines = match args.replay_ops() {
         Some(l) => l,
         None => generate(&args),
@@ -1146,8 +1405,9 @@ fn main() {
         E2E_CAP.store(600, Ordering::SeqCst);
     }
     let mut sc = Scen::new();
+    let mut ds = DState::new();
     for line in &lines {
-        exec_line(&mut out, &mut sc, line);
+        exec_line(&mut out, &mut sc, &mut ds, line);
     }
     out.extra.insert("ops".into(), json!(lines.len()));
     out.finish();
